@@ -1,12 +1,12 @@
 package main
 
 import (
-	"sort"
 	"fmt"
 	"go/ast"
 	"go/types"
 	"math/big"
 	"runtime/debug"
+	"sort"
 	"strings"
 )
 
